@@ -271,9 +271,22 @@ def _child(world, spec, lifetime, start_op, carry, scratch, wfd):
                 os._exit(71)
             os._exit(0)
         where, text = _classify_exception(e)
-        result['status'] = 'harness-error' if where == 'harness' else 'library-exception'
-        result['error'] = text[-4000:]
-        result['error_op'] = ctx.op_index
+        oracle = getattr(world, 'RAISE_ORACLE', None)
+        if callable(oracle):
+            oracle = oracle(spec.get('profile', ''))
+        if where == 'library' and oracle and isinstance(e, Exception):
+            # an operation on a valid specification / table that the property requires to succeed raised inside
+            # the library (the innermost frame is not harness code)
+            last = traceback.extract_tb(e.__traceback__)[-1]
+            ctx.violation = {'oracle': oracle, 'op': ctx.op_index, 'lifetime': lifetime, 'fs_event': None,
+                             'message': f'operation {spec["ops"][ctx.op_index]["op"] if ctx.op_index < len(spec["ops"]) else "?"} '
+                                        f'raised {type(e).__name__}: {str(e)[:300]} '
+                                        f'(at {os.path.basename(last.filename)}:{last.lineno})'}
+            result['status'] = 'violation'
+        else:
+            result['status'] = 'harness-error' if where == 'harness' else 'library-exception'
+            result['error'] = text[-4000:]
+            result['error_op'] = ctx.op_index
     try:
         ship()
     except BaseException:
